@@ -2315,6 +2315,23 @@ void t_tree()
                             cx.unchanged(1, src);
                         });
   });
+  // copy assignment from one of the target's OWN descendants ("replace a node by a copy of one of its sub-trees"): the
+  // source is destroyed by the assignment of the child list, so everything has to be read from it before that happens
+#ifndef C05_MO // (a copy assignment: not part of the move-only build)
+  for (unsigned k = 1; k < 4; ++k)
+    tree_subject_case("tree::operator=(own descendant)", "subject,C", "children=" + std::to_string(k), k, [&](case_t &cx, treeE &t) {
+      treeE &child = t.front().get_unsafe().get();
+      child.push_back(mk<E>(cx));
+      std::vector<int> all = payloads_of(snapshot(std::as_const(child)));
+      cx.subject(0, t);
+      for (int p : payloads_of(snapshot(t)))
+        cx.set_role(p, role::free);
+      cx.begin();
+      t = std::as_const(child);
+      cx.end();
+      cx.result_of(t, &all);
+    });
+#endif
   // erase(position): that subtree is documented to be destroyed, the rest stays
   for (unsigned k = 1; k < 4; ++k)
     tree_subject_case("tree::erase", "subject", "children=" + std::to_string(k), k, [&](case_t &cx, treeE &t) {
